@@ -13,6 +13,7 @@ commit) when a pull request dropped on one merge path was masking a red build on
 """
 from pyvc.values import *  # noqa
 from specs import c01
+from pyvc.env import Contract
 
 PROPERTY = 'C05'
 
@@ -29,7 +30,68 @@ def contracts(env):
         if ':merge_queues' in c.label:
             c.label = c.label + ' [C05 destinations move to the first listed entry]'
             cs.append(c)
+    install_remove_unmergeable(env, cs)
     return cs
+
+
+# ---------------------------------------------------------------- QueueCollection._remove_unmergeable
+# the step between the selection (mergeable_prs) and what merge_queues receives (mergeable_queues): on every
+# version the listed entries are cut down to the suffix that starts at the newest entry of a selected pull request
+RU = 'bert_e.workflow.gitwaterflow.branches:QueueCollection._remove_unmergeable'
+RU_VERSIONS = 2
+
+
+def install_remove_unmergeable(env, cs):
+    from bert_e.workflow.gitwaterflow import branches as B
+    env.add_class('RUEntry', kind='ref', fields={'qbranch': 'Br', 'qints': 'seq[Br]'},
+                  items={B.QueueBranch: 'qbranch', B.QueueIntegrationBranch: 'qints'})
+    env.add_class('RUQueues', fields={})
+    env.model('RUQueues', 'keys', trusted='queues.keys(): the versions of the collection (instance: %d versions)'
+              % RU_VERSIONS)(lambda I, self: I.alloc_list(tuple(range(RU_VERSIONS))))
+    env.model('RUQueues', '__getitem__', trusted='queues[version]: the entry of that version')(
+        lambda I, self, version: I.ghost['ru_entries'][version])
+    env.loop(RU, 1, inv_ru, havoc=[havoc_ru])
+    cs.append(Contract(RU, args={'self': 'QCObj', 'prs': 'seq[int]', 'queues': 'opaque'}, setup=ru_setup,
+                       label=RU + '[%d versions, any number of entries]' % RU_VERSIONS,
+                       ensures=[('each_version_keeps_exactly_the_suffix_from_its_newest_selected_entry', ens_ru)],
+                       covers=['return']))
+
+
+def ru_setup(I, args):
+    ents, init = [], []
+    for v in range(RU_VERSIONS):
+        r = I.fresh('ru_entry%d' % v, 'RUEntry')
+        q = I.fresh('ru_qints%d' % v, 'seq[Br]')
+        I.set_attr(r, 'qints', q)
+        ents.append(r)
+        init.append(I.seq_value(q))
+    I.ghost['ru_entries'] = tuple(ents)
+    I.ghost['ru_init'] = tuple(init)
+    args['queues'] = I.alloc_obj(None, 'RUQueues', {})
+
+
+def havoc_ru(I, fr):
+    v = fr.locals['version']
+    e = I.ghost['ru_entries'][v]
+    I.set_attr(e, 'qints', I.fresh('ru_qints%d@while' % v, 'seq[Br]', is_input=False))
+
+
+def ru_cut(cur, init, prs):
+    """cur is the suffix of init left after popping only entries of pull requests that are not selected"""
+    k = len(init) - len(cur)
+    return (k >= 0 and all(cur[j] == init[k + j] for j in range(len(cur)))
+            and all(init[j].pr_id not in prs for j in range(k)))
+
+
+def inv_ru(version, prs, G):
+    return ru_cut(G.ru_entries[version].qints, G.ru_init[version], prs)
+
+
+def ens_ru(prs, out, G):
+    return out.returned and all(
+        ru_cut(G.ru_entries[v].qints, G.ru_init[v], prs)
+        and (len(G.ru_entries[v].qints) == 0 or G.ru_entries[v].qints[0].pr_id in prs)
+        for v in range(RU_VERSIONS))
 
 
 def extra(rep, tier, seed, budget):
